@@ -158,7 +158,7 @@ def gen_case(rng, fragment):
     cnames = [f"c{i}" for i in range(nconds)]
     gnames = [f"g{i}" for i in range(2)] if fragment in ("interrupt", "choose") else []
     g = G(rng, cnames, fragment)
-    nsub = rng.randint(0, 2) if fragment == "core" else rng.randint(1, 3)
+    nsub = rng.randint(0, 2) if fragment == "core" else (rng.randint(2, 3) if fragment == "choose" else rng.randint(1, 3))
     nmain = rng.randint(1, 2)
     nmon = rng.randint(0, 1)
     total = nmain + nsub + nmon
@@ -174,6 +174,11 @@ def gen_case(rng, fragment):
             body.insert(0, g.yielding(False))
         if not _has_yield(body):  # a behaviour/monitor without any take/wait/do is a compile-time error
             body.insert(0, g.yielding(ismon))
+        if fragment == "choose" and d <= nmain and len(subs) >= 2 and not any(s[0] in ("choose", "shuffle") for s in body):
+            k = rng.choice(["choose", "shuffle"])
+            ds = rng.sample(subs, rng.randint(2, min(3, len(subs))))
+            items = [[x, 1] for x in ds] if rng.random() < 0.4 else [[x, rng.randint(1, 3)] for x in ds]
+            body.insert(rng.randint(0, min(1, len(body))), [k, items])
         pre, inv = [], []
         if gnames and (issub or (d <= nmain and rng.random() < 0.3)):
             if rng.random() < 0.5:
